@@ -1119,7 +1119,13 @@ class SymEx:
             out = []
             for x, vs in self.seq([e.value, e.slice], st):
                 b, i = vs
-                if x.exc is None and b[0] == 'dict' and isinstance(e.ctx, ast.Load) and i[0] not in ('str', 'num', 'const', 'slice') and _const_keyed(b):
+                if x.exc is None and b == ('dict', ()) and isinstance(e.ctx, ast.Load) and not self.in_comp and not self.suppress and self.try_lookup:
+                    # nothing is in an empty dict
+                    self._modelled_lookups = getattr(self, '_modelled_lookups', 0) + 1
+                    z = x.ev(Ev('raise', exc='KeyError', site=self.site(e), fn=self.fn.qn, args=(i,)))
+                    z.exc = ('raise', 'KeyError', self.site(e), self.fn.qn)
+                    out.append((z, ZERO))
+                elif x.exc is None and b[0] == 'dict' and isinstance(e.ctx, ast.Load) and i[0] not in ('str', 'num', 'const', 'slice') and _const_keyed(b):
                     out.extend(self.dict_lookup(b, i, x, e, None))
                 elif x.exc is None and self.try_lookup and isinstance(e.ctx, ast.Load) and b[0] in ('attr', 'var') and i[0] not in ('slice', 'num') \
                         and not self.in_comp and not self.suppress:
@@ -1340,6 +1346,8 @@ class SymEx:
             if b[0] in ('tuple', 'list', 'set') and a[0] in ('str', 'num') and all(z[0] in ('str', 'num') for z in b[1]):
                 v = a in b[1]
                 return TRUE if v == (o == 'in') else FALSE
+            if b in (('dict', ()), ('list', ()), ('tuple', ()), ('set', ())):
+                return FALSE if o == 'in' else TRUE
             if b[0] == 'dict' and a[0] in ('str', 'num') and _const_keyed(b):
                 v = any(kk == a for kk, _ in b[1])
                 return TRUE if v == (o == 'in') else FALSE
@@ -2274,6 +2282,12 @@ class SymEx:
         if fv == ('ext', 'DICT') and len(args) == 1 and not kws and args[0][0] == 'comp' and args[0][1] in ('gen', 'list') and \
                 args[0][2][0] == 'tuple' and len(args[0][2][1]) == 2:
             return [(st, ('comp', 'dict') + args[0][2:])]          # dict((k, v) for ...) is {k: v for ...}
+        if fv == ('ext', 'SUM') and 1 <= len(args) <= 2 and not kws and args[0][0] in ('list', 'tuple') and not any(z[0] == 'starred' for z in args[0][1]) \
+                and (len(args) == 1 or args[1][0] in ('num', 'rat')):
+            tot = args[1] if len(args) == 2 else ZERO          # sum of a literal sequence is the sum of its items
+            for z in args[0][1]:
+                tot = T.t_add(tot, z)
+            return [(st, tot)]
         if fv == ('ext', 'SUM') and len(args) == 2 and not kws and args[1] == ZERO:
             args = args[:1]                                         # sum(xs, 0) is sum(xs)
         if fv == ('ext', 'SUM') and len(args) == 1 and not kws and args[0][0] == 'call' and args[0][1] == ('meth', 'values') and len(args[0][2]) == 1 \
